@@ -431,6 +431,81 @@ def check_before_mutate(rep: Report, idx: Index, cg: CallGraph) -> None:
                        f'{len(store_nodes)} model store(s)')
 
 
+_DIGEST_SIZES = {'md5': 16, 'sha1': 20, 'sha224': 28, 'sha256': 32, 'sha384': 48, 'sha512': 64}
+
+
+def _token_constants(rep: Report) -> dict[str, int]:
+    """integer class constants of models.Token, folded in order"""
+    tree = rep.repo.tree('dashlive/server/models/token.py')
+    cls = find_class(tree, 'Token')
+    env: dict[str, int] = {}
+    if cls is None:
+        return env
+    for st in cls.body:
+        tg = st.target if isinstance(st, ast.AnnAssign) else (st.targets[0] if isinstance(st, ast.Assign) else None)
+        if isinstance(tg, ast.Name) and getattr(st, 'value', None) is not None:
+            v = _fold_int(st.value, env)
+            if v is not None:
+                env[tg.id] = v
+    return env
+
+
+def _fold_int(e: ast.AST, env: dict[str, int]) -> int | None:
+    if isinstance(e, ast.Constant) and isinstance(e.value, int) and not isinstance(e.value, bool):
+        return e.value
+    if isinstance(e, ast.Name):
+        return env.get(e.id)
+    if isinstance(e, ast.Attribute):
+        if e.attr == 'digest_size' and isinstance(e.value, ast.Call) and isinstance(e.value.func, ast.Attribute) \
+                and norm(e.value.func.value) == 'hashlib':
+            return _DIGEST_SIZES.get(e.value.func.attr)
+        if isinstance(e.value, ast.Name) and e.value.id in ('Token', 'cls', 'self'):
+            return env.get(e.attr)
+        return None
+    if isinstance(e, ast.BinOp):
+        l_, r_ = _fold_int(e.left, env), _fold_int(e.right, env)
+        if l_ is None or r_ is None:
+            return None
+        try:
+            return {ast.Add: lambda: l_ + r_, ast.Sub: lambda: l_ - r_, ast.Mult: lambda: l_ * r_,
+                    ast.FloorDiv: lambda: l_ // r_, ast.Mod: lambda: l_ % r_}[type(e.op)]()
+        except (KeyError, ZeroDivisionError):
+            return None
+    if isinstance(e, ast.Call) and call_name(e) in ('max', 'min') and e.args:
+        vals = [_fold_int(a, env) for a in e.args]
+        if any(v is None for v in vals):
+            return None
+        return max(vals) if call_name(e) == 'max' else min(vals)
+    return None
+
+
+def _const_int(rep: Report, e: ast.AST) -> int | None:
+    return _fold_int(e, _token_constants(rep))
+
+
+def _genuine_token_length(rep: Report, gen_t: ast.FunctionDef) -> int | None:
+    """length of the text generate_token() signs and returns (before percent-encoding): a salt cut to K
+    characters followed by str() of the base64 form of the HMAC digest - K + 3 + 4 * ceil(digest_size / 3)"""
+    env = _token_constants(rep)
+    k = None
+    for n in ast.walk(gen_t):
+        if isinstance(n, (ast.Assign, ast.AnnAssign)) and getattr(n, 'value', None) is not None \
+                and norm(n.targets[0] if isinstance(n, ast.Assign) else n.target) == 'salt' \
+                and isinstance(n.value, ast.Subscript) and isinstance(n.value.slice, ast.Slice) \
+                and n.value.slice.lower is None and n.value.slice.upper is not None:
+            k = _fold_int(n.value.slice.upper, env)
+    ds = None
+    for n in ast.walk(gen_t):
+        if isinstance(n, ast.Call) and call_name(n) == 'hmac.new' and len(n.args) > 2 \
+                and isinstance(n.args[2], ast.Attribute) and norm(n.args[2].value) == 'hashlib':
+            ds = _DIGEST_SIZES.get(n.args[2].attr)
+    made = [norm(n) for n in ast.walk(gen_t) if isinstance(n, ast.BinOp) and isinstance(n.op, ast.Add)
+            and norm(n.left) == 'salt']
+    if k is None or ds is None or not any(re.fullmatch(r'salt \+ str\(base64\.b64encode\(\w+\.digest\(\)\)\)', m) for m in made):
+        return None
+    return k + 3 + 4 * ((ds + 2) // 3)
+
+
 # --------------------------------------------------------------------------
 # R15.4 CsrfProtection.check
 # --------------------------------------------------------------------------
@@ -614,6 +689,68 @@ def check_csrf_protocol(rep: Report) -> None:
         else:
             rep.fail(rid, construct, 'key from cookie',
                      f'`{keyvar}` (the HMAC message key) is not read from the request cookie', chk)
+    # every character of the submitted token is verified: the text compared with the computed signature is
+    # the submitted token without its salt prefix, and the salt is that prefix - no other cut is made on the
+    # way (a token cut to a maximum length is accepted with anything appended to it)
+    params = [a.arg for a in chk.args.args]
+    tok_param = next((a for a in params if 'token' in a), None)
+    cmp_names: set[str] = set()
+    for n in ast.walk(chk):
+        if isinstance(n, ast.Compare) and len(n.ops) == 1 and isinstance(n.ops[0], (ast.Eq, ast.NotEq)) \
+                and ('sig' in norm(n) or 'digest' in norm(n)):
+            cmp_names |= {x.id for x in ast.walk(n) if isinstance(x, ast.Name)}
+        if isinstance(n, ast.Call) and (call_name(n) or '').endswith('compare_digest'):
+            cmp_names |= {x.id for a_ in n.args for x in ast.walk(a_) if isinstance(x, ast.Name)}
+    if tok_param is None:
+        rep.fail(rid, construct, 'whole token verified', 'check() has no token parameter', chk)
+    else:
+        tainted = {tok_param}
+        cuts: list[tuple[str, ast.Subscript, ast.AST]] = []
+        from ..core import dfs_order as _dfs2
+        pos2 = _dfs2(chk)
+        for n in sorted((x for x in ast.walk(chk) if isinstance(x, (ast.Assign, ast.AnnAssign)) and x.value is not None),
+                        key=lambda x: pos2.get(id(x), 0)):
+            tg = n.targets[0] if isinstance(n, ast.Assign) else n.target
+            if not isinstance(tg, ast.Name):
+                continue
+            if any(isinstance(x, ast.Name) and x.id in tainted for x in ast.walk(n.value)):
+                for sub in ast.walk(n.value):
+                    if isinstance(sub, ast.Subscript) and isinstance(sub.slice, ast.Slice) \
+                            and any(isinstance(x, ast.Name) and x.id in tainted for x in ast.walk(sub.value)):
+                        cuts.append((tg.id, sub, n))
+                tainted.add(tg.id)
+        prefix = [(t, sub) for t, sub, _n in cuts if sub.slice.lower is None and sub.slice.upper is not None and sub.slice.step is None]
+        rest = [(t, sub) for t, sub, _n in cuts if sub.slice.lower is not None and sub.slice.upper is None and sub.slice.step is None]
+        salt_cut = [x for x in prefix if x[0] not in cmp_names]
+        bad_cut = None
+        harmless = ''
+        for t, sub, n in cuts:
+            if (t, sub) in salt_cut:
+                continue
+            if (t, sub) in rest and salt_cut and norm(sub.slice.lower) == norm(salt_cut[0][1].slice.upper):
+                continue
+            # a cut to a maximum length beyond the length of every genuine token keeps at least one of the
+            # characters appended to a genuine token, so the comparison still fails: harmless
+            if sub.slice.lower is None and sub.slice.step is None and sub.slice.upper is not None:
+                limit = _const_int(rep, sub.slice.upper)
+                genuine = _genuine_token_length(rep, gen_t)
+                if limit is not None and genuine is not None and limit > genuine:
+                    harmless = f'; `{norm(sub)}` keeps {limit} characters, a genuine token has {genuine}'
+                    continue
+            bad_cut = (t, sub, n)
+            break
+        if bad_cut is None and salt_cut and rest:
+            rep.ok(rid, construct, 'whole token verified',
+                   f'salt = token[:{norm(salt_cut[0][1].slice.upper)}], compared text = token[{norm(rest[0][1].slice.lower)}:], no other cut'
+                   + harmless)
+        elif bad_cut is not None:
+            rep.fail(rid, construct, 'whole token verified',
+                     f'`{short(bad_cut[2], 70)}` cuts the submitted token by `{norm(bad_cut[1])}` before it is verified: the '
+                     'characters cut away are neither in the salt nor compared with the signature, so a valid token with '
+                     'anything appended (or otherwise changed there) is accepted', bad_cut[2])
+        else:
+            rep.fail(rid, construct, 'whole token verified',
+                     'the salt prefix / signature remainder split of the submitted token was not found: unrecognised', chk)
     # the value looked up / recorded as "used" is the decoded token the signature is cut from
     salt_src = None
     for n in ast.walk(chk):
